@@ -625,6 +625,12 @@ M('c18-md5-bitcount-64-late-widening', 'C18', 'src/internal/md5/md5c.c',
   'WID1', 'MD5Update', 'bit count kept in 64 bits but the shift is done in 32')
 
 
+M('c20-empty-word-dropped', 'C20', 'src/extensions/qaconf.c',
+  "            cbdata->argv[cbdata->argc] = wp1;\n            cbdata->argc++;",
+  "            if (*wp1 == '\\0' && cbdata->argc > 0) continue;\n            cbdata->argv[cbdata->argc] = wp1;\n            cbdata->argc++;",
+  'B10', '_parse_inline', 'empty words are skipped instead of stored')
+
+
 def run_selftest(prop, rep, rule_fn, config='cmake-release'):
     """Apply every mutant of `prop` to a scratch copy, run rule_fn(prog, report) on it, and
     require a finding of the expected rule (and function)."""
